@@ -726,7 +726,14 @@ func (fr *Frame) opaquePtr(l *Loc) Term {
 		return l.Base
 	case "field":
 		fn := smtName("ptrf_" + l.Heap)
-		te.pre.Add("fn:"+fn, fmt.Sprintf("(declare-fun %s (Int) Int)", fn))
+		if !te.pre.Has("fn:" + fn) {
+			te.pre.Add("fn:"+fn, fmt.Sprintf("(declare-fun %s (Int) Int)", fn))
+			// addresses of different fields are different; the address determines the object
+			k := te.subTag()
+			inv := smtName("invptr_" + fn)
+			te.pre.Add("fn:"+inv, fmt.Sprintf("(declare-fun %s (Int) Int)", inv))
+			te.pre.Add("ax:"+fn, fmt.Sprintf("(assert (forall ((p Int)) (! (and (= (%s (%s p)) p) (= (subtag (%s p)) %d) (not (= (%s p) 0))) :pattern ((%s p)))))", inv, fn, fn, k, fn, fn))
+		}
 		return Term{app(fn, l.Base.S), SInt}
 	case "elem":
 		fn := smtName("ptre_" + l.Heap)
